@@ -18,6 +18,13 @@ pub(crate) fn fixed_random_state() -> std::collections::hash_map::RandomState {
     unsafe { std::mem::transmute::<(u64, u64), std::collections::hash_map::RandomState>((0, 0)) }
 }
 
+/// Replacement of `UnknownFields::new()`: an empty map with fixed hasher keys (the real one asks
+/// the OS for random keys). Stubbing `RandomState::new` itself has no effect at MIR opt level 3,
+/// where it is inlined into `UnknownFields::new` before Kani applies stubs.
+pub(crate) fn unknown_fields_new() -> crate::UnknownFields {
+    crate::UnknownFields(std::collections::HashMap::with_hasher(fixed_random_state()))
+}
+
 fn all_prefixes_rejected(enc: &[u8]) {
     let mut l = 0;
     while l < enc.len() {
@@ -46,7 +53,7 @@ mod struct1 {
 
     #[kani::proof]
     #[kani::unwind(14)]
-    #[kani::stub(std::collections::hash_map::RandomState::new, fixed_random_state)]
+    #[kani::stub(crate::UnknownFields::new, unknown_fields_new)]
     fn q_c01_c07_wellformed() {
         let enc = enc1(kani::any(), kani::any(), wide());
         check_wellformed(&enc, 2);
@@ -54,7 +61,7 @@ mod struct1 {
 
     #[kani::proof]
     #[kani::unwind(14)]
-    #[kani::stub(std::collections::hash_map::RandomState::new, fixed_random_state)]
+    #[kani::stub(crate::UnknownFields::new, unknown_fields_new)]
     fn q_c07_truncations() {
         let enc = enc1(kani::any(), kani::any(), wide());
         all_prefixes_rejected(&enc);
@@ -62,7 +69,7 @@ mod struct1 {
 
     #[kani::proof]
     #[kani::unwind(14)]
-    #[kani::stub(std::collections::hash_map::RandomState::new, fixed_random_state)]
+    #[kani::stub(crate::UnknownFields::new, unknown_fields_new)]
     fn q_c01_c07_typed() {
         let (x, y, w): (u8, u8, [u8; 4]) = (kani::any(), kani::any(), wide());
         let enc = enc1(x, y, w);
@@ -110,8 +117,8 @@ mod struct1 {
 
     #[kani::proof]
     #[kani::unwind(14)]
-    #[kani::stub(std::collections::hash_map::RandomState::new, fixed_random_state)]
-    fn q_c01_c07_empty_through_value() {
+    #[kani::stub(crate::UnknownFields::new, unknown_fields_new)]
+    fn t_c01_c07_empty_through_value() {
         let e0 = [STRUCT1, 0];
         check_wellformed(&e0, 1);
         let (rv, cv) = run_value(&e0, 31);
@@ -135,7 +142,7 @@ mod struct2 {
     /// the real `Struct2Deserializer` as a unit: field-wise typed decode, skip loop, finish
     #[kani::proof]
     #[kani::unwind(14)]
-    #[kani::stub(std::collections::hash_map::RandomState::new, fixed_random_state)]
+    #[kani::stub(crate::UnknownFields::new, unknown_fields_new)]
     fn q_c01_c07_typed() {
         let (x, y): (u8, u8) = (kani::any(), kani::any());
         let enc = enc2(x, y);
@@ -157,7 +164,7 @@ mod struct2 {
 
     #[kani::proof]
     #[kani::unwind(14)]
-    #[kani::stub(std::collections::hash_map::RandomState::new, fixed_random_state)]
+    #[kani::stub(crate::UnknownFields::new, unknown_fields_new)]
     fn q_c01_c07_skip_unit() {
         let enc = enc2(kani::any(), kani::any());
         let mut rd: &[u8] = &enc;
